@@ -13,17 +13,15 @@ TRUSTED = [
     "relativedelta(dt1, dt2) incl. the while loop as a fuel-bounded recursion); _fix / _set_months as before "
     "(translate.py). Anything outside the fragment aborts with a named construct (broken tie). Proofs/RDGenEq.lean proves "
     "Gen.f = model f for: addDt = applyTo, raddDt, rsubDt, neg, abs, addRd, subRd, addTd, mulInt, bool, eq, hashKey, "
-    "initDiff = diffN (out of fuel = NotImplemented), and initKw on the arguments the operators pass (initKw_plain); the "
-    "`_gen` theorems of the Audit file restate the property theorems over the generated definitions",
+    "initDiff = diffN (out of fuel = NotImplemented), initKw = mk for EVERY keyword set (initKw_eq: yearday / nlyearday "
+    "scan, integer / object weekday, the ValueError and IndexError branches); the `_gen` theorems of the Audit file restate the property theorems over the generated definitions",
     "STILL HAND-MODELLED, tied by sampling only: (a) the named primitives of Model/RDPy.lean = CPython behaviour "
     "(calendar.monthrange / isleap, date/datetime.replace incl. its C-int and range errors, datetime.timedelta(...), "
     "x + timedelta, x.weekday(), isinstance(x, datetime), datetime.fromordinal(d.toordinal()), <, > and - between "
     "date/datetime objects incl. the same-object / UTC rule, timedelta.days/.seconds/.microseconds, weekdays[i], "
     "attributes of a weekday object, `a or b`, truthiness of Optional values), exercised by rdgen.* on every run; "
-    "(b) the model `mk` vs the translated constructor on yearday / nlyearday / integer weekday arguments (no equality "
-    "theorem: both are compared with the implementation by rd.mk and rdgen.mk, and C03's yearday theorems are about `mk`); "
-    "(c) __div__, normalized(), __repr__, the `weeks` property, float-valued fields (not translated); "
-    "(d) the grouping of the hashed tuple into (weekday, ints, optionals) by the translator of hash((...))",
+    "(b) __div__, normalized(), __repr__, the `weeks` property, float-valued fields (not translated). The hashed tuple is "
+    "translated element by element in source order (hashList) and captured in the same order from the implementation",
     "the translator itself is validated on every run: every correspondence request to a hand-model op (rd.add, rd.rsub, "
     "rd.mk, rd.expr, rd.bool, rd.hash, rd.eq, rd.diff, rd.diffn, rd.diffo) is repeated against the generated definition "
     "(rdgen.*) and compared with the implementation",
